@@ -484,12 +484,13 @@ def check(col, prog, tier, profile, fixture=None):
     if not fixture:
         _float_prims(col, prog, "P8" + sfx)
 
+    clone_ok = util.structural_clone_bodies(crate, adt)   # a hand-written Clone verified to copy the plan field by field
     # ---------------- P7: every constructor hands out a plan sized for at least 4 points
     col.rule("P7" + sfx, "every function that builds an FFT value sizes its plan (update_n(k), k >= 4) before the value escapes", floor=1)
     for b in crate.bodies:
         imp = crate.impl_of(b)
         # (a derived Clone copies a sized plan; a derived Default builds one from empty tables and is judged like any constructor)
-        if b.is_closure or (imp is not None and imp.get("derived") and not str(imp.get("trait")).endswith("Default")) or b.key in {h.key for h in helpers}:
+        if b.is_closure or (imp is not None and imp.get("derived") and not str(imp.get("trait")).endswith("Default")) or b.key in {h.key for h in helpers} or b.key in clone_ok:
             continue
         sites = [(bb, idx) for bb, idx, s_ in b.statements() if s_["k"] == "assign" and s_["rv"]["k"] == "agg" and s_["rv"]["ak"]["k"] == "adt" and s_["rv"]["ak"]["def"] == adt["key"]]
         if not sites:
@@ -513,7 +514,7 @@ def check(col, prog, tier, profile, fixture=None):
     may_write = util.allowed_writers(crate, {"new", "update_n"}, helpers)
     for b in crate.bodies:
         imp = crate.impl_of(b)
-        if imp is not None and imp.get("derived"):
+        if (imp is not None and imp.get("derived")) or b.key in clone_ok:
             continue
         for bb, idx, s in b.statements():
             if s["k"] != "assign":
